@@ -4357,11 +4357,12 @@ def check_onepoint(goal, ctx):
         # body must be in conjunction form, with each equation as a conjunct
         conjs = l_bd.strip_conj()
         for v, t in one_val_var.items():
+            found = False
             for i, conj in enumerate(conjs):
-                if conj.is_equals() and conj.lhs == v:
+                if conj.is_equals() and conj.lhs == v and conj.rhs == t:
                     found = True
                     break
-                if conj.is_equals() and conj.rhs == v:
+                if conj.is_equals() and conj.rhs == v and conj.lhs == t:
                     found = True
                     conjs[i] = Eq(conj.rhs, conj.lhs)
                     break
